@@ -262,6 +262,8 @@ def method(eng, st, recv, name, args, kwargs):
     if isinstance(recv, SStr):
         if name == "split" and args == ["_"]:
             return sstr_split(st, recv)
+        if name == "rsplit" and args == ["_", 1]:
+            return sstr_rsplit1(st, recv)
     if isinstance(recv, _BinStr) and name == "count" and args == ["1"]:
         v = recv.v
         if isinstance(v, SSlice):
@@ -296,6 +298,18 @@ def sstr_split(st, s):
             parts[-1].append(seg)
     out = [norm(SStr(p)) if p else "" for p in parts]
     return st.alloc(HList(out))
+
+
+def sstr_rsplit1(st, s):
+    """rsplit("_", 1): [everything before the last "_", everything after it]."""
+    segs = list(s.segs)
+    for i in range(len(segs) - 1, -1, -1):
+        if isinstance(segs[i], str) and "_" in segs[i]:
+            a, b = segs[i].rsplit("_", 1)
+            left = norm(SStr(segs[:i] + [a]))
+            right = norm(SStr([b] + segs[i + 1:]))
+            return st.alloc(HList([left if not (isinstance(left, SStr) and not left.segs) else "", right if not (isinstance(right, SStr) and not right.segs) else ""]))
+    return st.alloc(HList([s]))
 
 
 def dict_get(st, d, key, default):
@@ -446,7 +460,18 @@ def get_item(eng, st, o, i):
 
 
 def pattern_lookup(st, d, key):
-    raise EngineUnsupported(f"dict lookup with pattern key {key!r}")
+    """d[key] for a pattern string: cases over the keys the pattern can equal."""
+    cases = []
+    neg = []
+    for k, v in d.items():
+        if isinstance(k, str):
+            e = ops.str_eq(st, key, k)
+            if e is False:
+                continue
+            cases.append((bool_term(e) if not isinstance(e, bool) else True, v))
+            neg.append(z3.Not(bool_term(e)) if not isinstance(e, bool) else False)
+    cases.append((zand(*neg) if neg else True, RaiseExc(KeyError, "key")))
+    return Cases(cases)
 
 
 def bytes_item(st, b, i):
